@@ -11,7 +11,7 @@ def _capi(seed, tier, cfgs, what):
     r = capi.run_all(seed, tier, cfgs)
     out = {"ok": r["ok"], "evaluations": r["evaluations"], "distinct_nontrivial": 0, "broken": [], "violations": [],
            "coverage": {"runs": r["runs"], "what": what}, "samples": []}
-    sdir = kv.stream_dir("capi", seed, tier)
+    sdir = kv.stream_dir("capi", seed, tier, ["debug"])
     mf = os.path.join(sdir, "capi_debug_meta.json")
     if os.path.exists(mf):
         m = json.load(open(mf))
@@ -77,6 +77,11 @@ def _gen_csvs(seed, tier, outdir):
 
     big = 300 if tier == "thorough" else 70
     sizes = [0, 1, 2, 3, 5, 8, 13, 21, 34, big]
+    # a sweep of record counts for the thread-schedule part (chunk boundaries of
+    # the parallel matrix construction depend on both n and the thread count)
+    sweep = list(range(65, 300, 1)) if tier == "thorough" else sorted(set(list(range(66, 170, 3)) + [rnd.randrange(64, 300) for _ in range(10)]))
+    for n in sweep:
+        write("sweep_%d.csv" % n, [(rnd.uniform(-80, 80), rnd.uniform(-179, 179)) for _ in range(n)])
     for k, n in enumerate(sizes):
         write("rand_%d.csv" % n, [(rnd.uniform(-80, 80), rnd.uniform(-179, 179)) for _ in range(n)])
     # duplicates (exact ties), poles and antimeridian
@@ -116,9 +121,12 @@ def cli_runs(seed, tier):
     hist = {"threads": {}, "records": {}, "methods": {}}
     nruns = 0
     for fi, (csv, n) in enumerate(files):
-        ms = methods if n <= 40 else [methods[(fi + k) % 7] for k in range(3)]
+        is_sweep = os.path.basename(csv).startswith("sweep_")
+        ms = methods if n <= 40 else ([methods[fi % 7]] if is_sweep else [methods[(fi + k) % 7] for k in range(3)])
         for mi, m in enumerate(ms):
-            ths = threads_all if (tier == "thorough" or n <= 13) else [threads_all[(fi + mi) % 5], threads_all[(fi + mi + 2) % 5]]
+            ths = threads_all if (tier == "thorough" or n <= 13 or is_sweep) else [threads_all[(fi + mi) % 5], threads_all[(fi + mi + 2) % 5]]
+            if is_sweep:
+                ths = [2, 3, 7, 16] + ([5, 11] if tier == "thorough" else [])
             # expected: sequential matrix + linkage from the harness
             exp_dist = os.path.join(work, "exp.dist")
             rc, eo = kv.sh("%s cliexpect --csv %s --method %s --save %s" % (kvh, csv, m, exp_dist), timeout=600)
